@@ -1,91 +1,8 @@
-(** What pack("<f") produces survives unpack("<f") followed by pack("<f"): d2s b = Ok x -> d2s (s2d x) = Ok x.
-    (Through Flocq like proofs/FloatProofs.v: Reals axioms + classic.)  Used to discharge the float clause of the C09
-    closure side condition for values the writer wrote. *)
-From Coq Require Import ZArith Reals Lia Lra SpecFloat Bool.
-From Flocq Require Import Core Round Digits FLT Generic_fmt Float_prop Raux BinarySingleNaN.
+(** What pack("<f") produces survives unpack("<f") followed by pack("<f").  The proof is proofs/FloatProofs.v's
+    [d2s_image_stable] (Flocq: Reals axioms + classic); this file only keeps the name used by proofs/ElabFloats.v. *)
+From Coq Require Import ZArith.
 From FA Require Import model.Base model.Float proofs.FloatBits proofs.FloatProofs.
 Open Scope Z_scope.
 
-Lemma finite_unique prec emax s1 m1 e1 s2 m2 e2 :
-  valid_binary prec emax (S754_finite s1 m1 e1) = true -> valid_binary prec emax (S754_finite s2 m2 e2) = true ->
-  rval s1 m1 e1 = rval s2 m2 e2 -> S754_finite s1 m1 e1 = S754_finite s2 m2 e2.
-Proof.
-  intros H1 H2 Hr. cbn [valid_binary] in H1, H2.
-  assert (E : B754_finite s1 m1 e1 H1 = B754_finite s2 m2 e2 H2 :> binary_float prec emax).
-  { apply B2R_inj; [reflexivity|reflexivity|exact Hr]. }
-  inversion E. reflexivity.
-Qed.
-
-Lemma rval_neq0 s m e : rval s m e <> 0%R.
-Proof.
-  unfold rval. intros H. apply eq_0_F2R in H. destruct s; cbn [cond_Zopp] in H; lia.
-Qed.
-
-(* quiet NaNs: sign and payload survive *)
-Lemma nan32_stable sgn K : 0 <= K < 2 ^ 23 ->
-  let x := signbit 23 8 sgn + 255 * 2 ^ 23 + Z.lor (2 ^ 22) K in d2s (s2d x) = Ok x.
-Proof.
-  intros HK x. set (M := Z.lor (2 ^ 22) K) in *.
-  assert (HM : 0 <= M < 2 ^ 23) by (apply lor_lt; lia).
-  assert (HM0 : M <> 0) by (intros E; apply Z.lor_eq_0_iff in E; destruct E as [E _]; discriminate E).
-  assert (Hx : x = b2z sgn * 2 ^ (23 + 8) + 255 * 2 ^ 23 + M) by (unfold x; rewrite signbit_b2z; reflexivity).
-  destruct (split_fields 23 8 (b2z sgn) 255 M ltac:(lia) ltac:(lia) HM ltac:(lia) (b2z_range sgn)) as (F1 & _ & F3 & _).
-  cbv zeta in F1, F3. rewrite <- Hx in F1, F3. rewrite b2z_eqb in F3.
-  assert (Hd : fdecode 23 8 x = S754_nan).
-  { rewrite Hx, fdecode_fields by (try lia; apply b2z_range). cbv zeta. change (255 =? 0) with false. change (255 =? 2 ^ 8 - 1) with true.
-    cbv iota. destruct (M =? 0) eqn:E; [lia|reflexivity]. }
-  unfold s2d. rewrite Hd. change (23 + 8) with 31 in F3. rewrite F3. unfold frac32. rewrite land_ones' by lia. rewrite F1.
-  set (M2 := Z.lor (2 ^ 51) (Z.shiftl M 29)).
-  assert (HM2 : 0 <= M2 < 2 ^ 52).
-  { apply lor_lt; [lia|lia|]. rewrite Z.shiftl_mul_pow2 by lia. change (2 ^ 52) with (2 ^ 23 * 2 ^ 29). nia. }
-  assert (HM20 : M2 <> 0) by (intros E; apply Z.lor_eq_0_iff in E; destruct E as [E _]; discriminate E).
-  set (y := signbit 52 11 sgn + 2047 * 2 ^ 52 + M2).
-  assert (Hy : y = b2z sgn * 2 ^ (52 + 11) + 2047 * 2 ^ 52 + M2) by (unfold y; rewrite signbit_b2z; reflexivity).
-  destruct (split_fields 52 11 (b2z sgn) 2047 M2 ltac:(lia) ltac:(lia) HM2 ltac:(lia) (b2z_range sgn)) as (G1 & _ & G3 & _).
-  cbv zeta in G1, G3. rewrite <- Hy in G1, G3. rewrite b2z_eqb in G3.
-  assert (Hdy : fdecode 52 11 y = S754_nan).
-  { rewrite Hy, fdecode_fields by (try lia; apply b2z_range). cbv zeta. change (2047 =? 0) with false. change (2047 =? 2 ^ 11 - 1) with true.
-    cbv iota. destruct (M2 =? 0) eqn:E; [lia|reflexivity]. }
-  unfold d2s. rewrite Hdy. change (52 + 11) with 63 in G3. rewrite G3. unfold frac64. rewrite land_ones' by lia. rewrite G1.
-  f_equal. unfold x. f_equal. unfold M2. rewrite Z.shiftr_lor, Z.shiftr_shiftl_l by lia. change (29 - 29) with 0. rewrite Z.shiftl_0_r.
-  change (Z.shiftr (2 ^ 51) 29) with (2 ^ 22). unfold M. rewrite !Z.lor_assoc, !Z.lor_diag. reflexivity.
-Qed.
-
-(* zeros and infinities *)
-Lemma special32_stable y : (exists s, y = S754_zero s) \/ (exists s, y = S754_infinity s) -> d2s (s2d (fencode 23 8 y)) = Ok (fencode 23 8 y).
-Proof. intros [[s ->]|[s ->]]; destruct s; vm_compute; reflexivity. Qed.
-
-(* finite binary32 values *)
-Lemma finite32_stable s m e : valid_binary 24 128 (S754_finite s m e) = true ->
-  d2s (s2d (fencode 23 8 (S754_finite s m e))) = Ok (fencode 23 8 (S754_finite s m e)).
-Proof.
-  intros Hv. set (x := fencode 23 8 (S754_finite s m e)).
-  assert (Hdx : fdecode 23 8 x = S754_finite s m e) by (apply fdecode32_fencode; [exact Hv|discriminate]).
-  destruct (s2d_finite_exact x s m e Hdx) as (y64 & _ & Hy & Hval & Hfin).
-  destruct y64 as [s2| | |s2 m2 e2]; try discriminate Hfin.
-  { exfalso. cbn in Hval. symmetry in Hval. exact (rval_neq0 _ _ _ Hval). }
-  pose proof (d2s_finite_spec (s2d x) s2 m2 e2 Hy) as Hs. cbv zeta in Hs.
-  assert (Hr : rne 24 128 (rval s2 m2 e2) = rval s m e).
-  { change (rval s2 m2 e2) with (SF2R radix2 (S754_finite s2 m2 e2)). rewrite Hval. unfold rne.
-    apply round_generic; [typeclasses eauto|]. apply valid_generic. exact Hv. }
-  rewrite Hr in Hs. rewrite Rlt_bool_true in Hs by (apply (valid_lt_emax 24 128); try lia; exact Hv).
-  destruct Hs as (y' & Hd & Hrt & Hv' & Hf' & _ & _). rewrite Hd. f_equal. unfold x. f_equal.
-  assert (Hvy : valid_binary 24 128 y' = true) by (rewrite <- Hrt; apply (fdecode_valid 23 8); lia).
-  destruct y' as [s'| | |s' m' e']; try discriminate Hf'.
-  { exfalso. cbn in Hv'. exact (rval_neq0 _ _ _ (eq_sym Hv')). }
-  apply finite_unique with (prec := 24) (emax := 128); [exact Hvy|exact Hv|exact Hv'].
-Qed.
-
-(** pack("<f") after unpack("<f") is the identity on everything pack("<f") produces *)
 Theorem d2s_stable b x : d2s b = Ok x -> d2s (s2d x) = Ok x.
-Proof.
-  unfold d2s at 1. destruct (fdecode 52 11 b) as [s|s| |s m e] eqn:Hd; intros H.
-  - injection H as <-. apply special32_stable. left. eauto.
-  - injection H as <-. apply special32_stable. right. eauto.
-  - injection H as <-. apply nan32_stable. apply frac_shift.
-  - pose proof (spec_round 24 128 s m e ltac:(lia) ltac:(lia)) as [Hv _].
-    destruct (SpecFloat.binary_round 24 128 s m e) as [s'|s'| |s' m' e'] eqn:Er; try discriminate H; injection H as <-.
-    + apply special32_stable. left. eauto.
-    + exfalso. exact (round_not_nan 24 128 s m e ltac:(lia) ltac:(lia) Er).
-    + apply finite32_stable. exact Hv.
-Qed.
+Proof. exact (d2s_image_stable b x). Qed.
